@@ -128,7 +128,7 @@ func (e *Encoder) putLargeBytes(msg []byte) {
 	}
 
 	maxLen := 1 << 24 // 3 байта 24 бита, самый первый это 0xfe оставшиеся 3 как раз длина
-	if len(msg) > maxLen {
+	if len(msg) >= maxLen {
 		e.err = fmt.Errorf("message entity too large: expect less than %v, got %v", maxLen, len(msg))
 		return
 	}
